@@ -243,7 +243,7 @@ func runC20(c *Case) {
 				args[0] = "columns='a primary key, b, a'"
 				why = "duplicate column"
 			case 8:
-				args[0] = "columns='a primary key, b unique'"
+				args[0] = "columns='" + []string{"a primary key, b unique", "a unique, k primary key", "a unique, k, primary key(k)", "a unique", "a, b unique", "k primary key unique, a", "a UNIQUE, b, k PRIMARY KEY"}[r.Intn(7)] + "'"
 				why = "UNIQUE"
 			case 9:
 				args[0] = "columns='a primary key, b default 5'"
